@@ -14,6 +14,7 @@ import (
 	"github.com/samsarahq/thunder/batch"
 	"github.com/samsarahq/thunder/diff"
 	"github.com/samsarahq/thunder/reactive"
+	"github.com/samsarahq/thunder/verifhook"
 )
 
 const (
@@ -129,6 +130,7 @@ func (c *conn) handleSubscribe(in *inEnvelope) error {
 
 	c.mu.Lock()
 	defer c.mu.Unlock()
+	verifhook.At("conn.handleSubscribe.locked", c, id)
 
 	if _, ok := c.subscriptions[id]; ok {
 		return NewSafeError("duplicate subscription")
@@ -158,6 +160,7 @@ func (c *conn) handleSubscribe(in *inEnvelope) error {
 
 	e := c.executor
 
+	verifhook.At("conn.handleSubscribe.accept", c, id, tags)
 	initial := true
 	c.subscriptionLogger.Subscribe(c.ctx, id, tags)
 	var self *reactive.Rerunner
@@ -195,6 +198,7 @@ func (c *conn) handleSubscribe(in *inEnvelope) error {
 
 		if err != nil {
 			if ErrorCause(err) == context.Canceled {
+				verifhook.At("conn.spawnClose", c, id, tags)
 				go c.closeOwnSubscription(id, &self)
 				return nil, err
 			}
@@ -221,6 +225,7 @@ func (c *conn) handleSubscribe(in *inEnvelope) error {
 				Message:  SanitizeError(err),
 				Metadata: output.Metadata,
 			})
+			verifhook.At("conn.spawnClose", c, id, tags)
 			go c.closeOwnSubscription(id, &self)
 
 			if _, ok := err.(SanitizedError); !ok {
@@ -267,6 +272,7 @@ func (c *conn) handleMutate(in *inEnvelope) error {
 
 	c.mu.Lock()
 	defer c.mu.Unlock()
+	verifhook.At("conn.handleMutate.locked", c, id)
 
 	if _, ok := c.subscriptions[id]; ok {
 		return NewSafeError("duplicate subscription")
@@ -288,6 +294,7 @@ func (c *conn) handleMutate(in *inEnvelope) error {
 		return err
 	}
 
+	verifhook.At("conn.handleMutate.accept", c, id, tags)
 	initial := true
 	e := c.executor
 	c.subscriptionLogger.Subscribe(c.ctx, id, tags)
@@ -335,6 +342,7 @@ func (c *conn) handleMutate(in *inEnvelope) error {
 				Metadata: output.Metadata,
 			})
 
+			verifhook.At("conn.spawnClose", c, id, tags)
 			go c.closeOwnSubscription(id, &self)
 
 			if ErrorCause(err) == context.Canceled {
@@ -357,6 +365,7 @@ func (c *conn) handleMutate(in *inEnvelope) error {
 		go c.rerunSubscriptionsImmediately()
 
 		initial = false
+		verifhook.At("conn.spawnClose", c, id, tags)
 		go c.closeOwnSubscription(id, &self)
 		return nil, errors.New("stop")
 	}, c.minRerunIntervalFunc(c.ctx, query), c.alwaysSpawnGoroutineFunc(c.ctx, query))
@@ -375,14 +384,17 @@ func (c *conn) rerunSubscriptionsImmediately() {
 }
 
 func (c *conn) closeSubscription(id string) {
+	verifhook.At("conn.closeSubscription.enter", c, id)
 	c.mu.Lock()
 	defer c.mu.Unlock()
+	verifhook.At("conn.closeSubscription.locked", c, id)
 
 	if runner, ok := c.subscriptions[id]; ok {
 		runner.Stop()
 		delete(c.subscriptions, id)
 		c.subscriptionLogger.Unsubscribe(c.ctx, id)
 	}
+	verifhook.At("conn.closeSubscription.done", c, id)
 }
 
 // closeOwnSubscription is the close a computation requests for its own
@@ -390,14 +402,17 @@ func (c *conn) closeSubscription(id string) {
 // subscription may already have been closed and its id reused, and the new
 // owner of the id must be left alone.
 func (c *conn) closeOwnSubscription(id string, own **reactive.Rerunner) {
+	verifhook.At("conn.closeSubscription.enter", c, id)
 	c.mu.Lock()
 	defer c.mu.Unlock()
+	verifhook.At("conn.closeSubscription.locked", c, id)
 
 	if runner, ok := c.subscriptions[id]; ok && runner == *own {
 		runner.Stop()
 		delete(c.subscriptions, id)
 		c.subscriptionLogger.Unsubscribe(c.ctx, id)
 	}
+	verifhook.At("conn.closeSubscription.done", c, id)
 }
 
 func (c *conn) closeSubscriptions() {
@@ -409,6 +424,7 @@ func (c *conn) closeSubscriptions() {
 		delete(c.subscriptions, id)
 		c.subscriptionLogger.Unsubscribe(c.ctx, id)
 	}
+	verifhook.At("conn.closeSubscriptions.done", c)
 }
 
 func (c *conn) handle(e *inEnvelope) error {
